@@ -615,7 +615,10 @@ impl<'a, T: Component> ArchetypeColumn<'a, T> {
         let state = archetype.get_state::<T>()?;
         let ptr = archetype.get_base::<T>(state);
         let column = unsafe { core::slice::from_raw_parts(ptr.as_ptr(), archetype.len() as usize) };
-        archetype.borrow::<T>(state);
+        // As for queries, nothing is accessed in an empty archetype, so nothing can conflict
+        if !column.is_empty() {
+            archetype.borrow::<T>(state);
+        }
         Some(Self { archetype, column })
     }
 }
@@ -629,6 +632,9 @@ impl<T: Component> Deref for ArchetypeColumn<'_, T> {
 
 impl<T: Component> Drop for ArchetypeColumn<'_, T> {
     fn drop(&mut self) {
+        if self.column.is_empty() {
+            return;
+        }
         let state = self.archetype.get_state::<T>().unwrap();
         self.archetype.release::<T>(state);
     }
@@ -636,8 +642,10 @@ impl<T: Component> Drop for ArchetypeColumn<'_, T> {
 
 impl<T: Component> Clone for ArchetypeColumn<'_, T> {
     fn clone(&self) -> Self {
-        let state = self.archetype.get_state::<T>().unwrap();
-        self.archetype.borrow::<T>(state);
+        if !self.column.is_empty() {
+            let state = self.archetype.get_state::<T>().unwrap();
+            self.archetype.borrow::<T>(state);
+        }
         Self {
             archetype: self.archetype,
             column: self.column,
@@ -663,7 +671,10 @@ impl<'a, T: Component> ArchetypeColumnMut<'a, T> {
         let ptr = archetype.get_base::<T>(state);
         let column =
             unsafe { core::slice::from_raw_parts_mut(ptr.as_ptr(), archetype.len() as usize) };
-        archetype.borrow_mut::<T>(state);
+        // As for queries, nothing is accessed in an empty archetype, so nothing can conflict
+        if !column.is_empty() {
+            archetype.borrow_mut::<T>(state);
+        }
         Some(Self { archetype, column })
     }
 }
@@ -683,6 +694,9 @@ impl<T: Component> DerefMut for ArchetypeColumnMut<'_, T> {
 
 impl<T: Component> Drop for ArchetypeColumnMut<'_, T> {
     fn drop(&mut self) {
+        if self.column.is_empty() {
+            return;
+        }
         let state = self.archetype.get_state::<T>().unwrap();
         self.archetype.release_mut::<T>(state);
     }
